@@ -311,5 +311,59 @@ theorem J_execS (e : Enc) : ∀ (ops : List Op) (m : Tree) (S : List Bytes), J e
       simp only [hp', Bool.false_eq_true, if_false]
       exact ih _ _ (J_step layer e S m op hp' h)
 
+/-! ## failed persists
+
+A `MakeRoot` that fails has issued some of its writes: an arbitrary sub-list of them has reached
+the store (which ones is up to the worker pool and the store).  The tree is left as it was —
+nothing is committed before every write has succeeded (pub.go, `flush`: the commit closures run
+only when no write failed). -/
+
+theorem J_mono (e : Enc) {S S' : List Bytes} (hs : ∀ n ∈ S, n ∈ S') (m : Tree) (hj : J e S m) : J e S' m :=
+  ⟨TL_mono (fun c hc => inS_mono e hs c hc) _ hj.links,
+   fun hd he => ⟨hs _ (hj.clean hd he).1, fun n hn => hs n ((hj.clean hd he).2 n hn)⟩⟩
+
+/-- keep the elements of `l` whose position is marked in `mask` (missing marks = dropped) -/
+def keep {α} : List Bool → List α → List α
+  | true :: ms, x :: xs => x :: keep ms xs
+  | false :: ms, _ :: xs => keep ms xs
+  | _, _ => []
+
+/-- a step of a history with faults: an ordinary operation (a `persist` here is a MakeRoot that
+    succeeds), or a MakeRoot that fails after the marked writes have reached the store -/
+inductive OpF where
+  | op (o : Op)
+  | failedPersist (landed : List Bool)
+
+def execF (e : Enc) : Tree × List Bytes → List OpF → Tree × List Bytes
+  | ms, [] => ms
+  | (m, S), .op o :: ops =>
+      execF e ((stepT layer e m o).1, if isPersist o then S ++ written e m else S) ops
+  | (m, S), .failedPersist landed :: ops =>
+      execF e (m, S ++ keep landed (written e m)) ops
+
+theorem J_execF (e : Enc) : ∀ (ops : List OpF) (m : Tree) (S : List Bytes), J e S m →
+    J e (execF layer e (m, S) ops).2 (execF layer e (m, S) ops).1 := by
+  intro ops
+  induction ops with
+  | nil => intro m S h; exact h
+  | cons op ops ih =>
+    intro m S h
+    cases op with
+    | op o =>
+      simp only [execF]
+      by_cases hp : isPersist o = true
+      · simp only [hp, if_true]
+        have : (stepT layer e m o).1 = (makeRoot e m).2.2 := by
+          cases o <;> simp [isPersist] at hp
+          rfl
+        rw [this]
+        exact ih _ _ (makeRoot_complete e S m h).2
+      · have hp' : isPersist o = false := by simpa using hp
+        simp only [hp', Bool.false_eq_true, if_false]
+        exact ih _ _ (J_step layer e S m o hp' h)
+    | failedPersist landed =>
+      simp only [execF]
+      exact ih _ _ (J_mono e (fun n hn => by simp [hn]) m h)
+
 end Tree
 end Mast
